@@ -464,6 +464,7 @@ pub unsafe extern "C" fn write(fd: c_int, buf: *const c_void, len: size_t) -> ss
                     w.disk_log.push(DiskOpRec { instance: inst, op: Op::Write, class, bytes: r.max(0) as usize, ok: r >= 0 && !crash_after });
                     w.n_disk += 1;
                     world::log_event(&format!("write {:?} {}", class, r));
+                    if w.disk_write_latency_ns > 0 && r > 0 { let to = w.mono.saturating_add(w.disk_write_latency_ns); world::set_mono(to); }
                     if crash_after { crash_here(idx) }
                     return ret(r) as ssize_t;
                 }
